@@ -37,8 +37,8 @@ _c("C10", "exploration", "property-based testing (proptest) in virtual time: rea
    "1-6 racing opens (sequentially started or truly overlapping in open_stream over small-capacity transports with forced pre-emptions), answers (ok / error text / none) at 0, 1 ms, 29.999 s, 30 s, 30.001 s, duplicated, stray, cross-addressed, long / multi-byte / invalid UTF-8 reasons, peer versions 0-2, session death during the wait (the call must end when the session dies, not at the timeout). Sampling.",
    "an answer exactly at the 30 s deadline may go either way; H3 gives access to the pool")
 _c("C11", "exploration", "schedule exploration by property-based testing (proptest): generated yield counts at instrumented points + spawn order + transport back-pressure; invariants over the reference-parsed wire vs submission logs",
-   "2-5 writer tasks on one fresh session doing what real callers do (incl. 65530-65540-byte sends), transport stalls of up to 61 s mid-history, the session's own keep-alive monitor as one more writer; wire must parse, equal the submitted multiset, keep per-task FIFO, start with the settings frame and keep SYN before PSH. Sampling of schedules at hook points only.",
-   "schedules are explored at H1 points, transport Pendings and spawn order on a single-threaded runtime; data races below the await level are out of reach")
+   "2-5 writer tasks on one fresh session doing what real callers do (incl. 65530-65540-byte sends), transport stalls of up to 61 s mid-history, the session's own keep-alive monitor as one more writer; wire must parse, equal the submitted multiset, keep per-task FIFO, start with the settings frame and keep SYN before PSH. Plus simultaneous first requests on a real client with an empty pool on a multi-threaded runtime with runtime threads stalled at trace events (fresh_burst). Sampling of schedules at hook points and stall points only.",
+   "schedules are explored at H1 points, transport Pendings and spawn order on a single-threaded runtime, and by thread stalls at trace events on the multi-threaded loopback runtime; data races below the statement level are out of reach")
 _c("C12", "exploration", "model-based property testing (proptest) in virtual time: generated pool histories vs a validity predicate evaluated around every reaper tick",
    "Add/Get/Kill/Advance/Cleanup histories on the real SessionPool with in-memory sessions (some with slow-closing transports; cleanup_expired racing with get_idle_session); predicate: never a closed session from Get, only expired sessions reaped, never below min idle, at most min idle expired survivors, idle_count agrees. Lab-S: a real client with 1 s / 2 s timers holding streams across reaper ticks (in-use sessions must survive: listed known finding, keyed on the in-use model) and bursts of 2-24 simultaneous requests on an empty pool (idle_count and hand-outs vs the model of dialled-and-not-taken sessions).",
    "which survivor is kept is left open; exact-boundary ages may go either way")
@@ -60,13 +60,13 @@ _c("C16", "exploration", "property-based testing (proptest) of the real SOCKS5 l
    "kernel loopback timing; one shared world per worker thread; localhost resolves to 127.0.0.1")
 
 _c("C13", "exploration", "property-based testing (proptest) of request histories through the real SOCKS5 front-end with a counting TCP forwarder in front of the real server; invariants over the connection counts",
-   "Generated sequential/bursty request histories with pauses, requests to a closed port and network cuts of every / of one established session, pool settings varied (incl. 1 s / 2 s timers); the forwarder counts TLS connections opened and still open and the client's idle_count is compared with the pool model after every step. r2 (second non-overlapping request reuses) is armed; r3+ and the bound are listed known findings with witnesses (sessions are never returned to the pool).",
+   "Generated sequential/bursty request histories with pauses, requests to a closed port and network cuts of every / of one established session, pool settings varied (incl. 1 s / 2 s timers); the forwarder counts TLS connections opened and still open and the client's idle_count is compared with the pool model after every step. Lab-M family `pooled`: a real Client with in-memory pooled sessions, housekeeping concurrent with requests - a request must be served from the pool whenever a healthy session must survive. r2 (second non-overlapping request reuses) is armed; r3+ and the bound are listed known findings with witnesses (sessions are never returned to the pool).",
    "kernel loopback; forwarder accept count = sessions dialled; pool model: dial inserts, reuse removes, nothing returns (today's lifecycle)")
 _c("C15", "exploration", "property-based testing (proptest): end-to-end datagram sequences in lock-step through create_udp_proxy on loopback, and the server relay fed a reference UDP-over-TCP stream with generated fragmentation",
    "Datagram sizes 1..65507 with keyed contents in both directions through the real client/server; IPv4 and IPv6 targets, stray datagrams from a third socket to the relay; server relay alone with cuts inside length prefixes and several packets per chunk; the real client's association against a reference server that echoes each datagram in fragments with 0-2600 ms between the frames; exactly-one/identical/ordered delivery and silence of a decoy socket.",
    "kernel loopback UDP in lock-step (no socket buffer loss); reference UoT framing")
 _c("C19", "exploration", "property-based testing (proptest) of process-level histories, each in a fresh child process, against a scripted reference server that observes the client's plaintext; reference scheme family with distinct fixed sizes",
-   "1-4 sessions of one real Client per process, server scheme per connection (parsable with distinct sizes / the built-in scheme / unparsable), client schemes incl. stop=1, default used before or not; packet sizes, announced md5, preamble padding and push counts judged against the scheme that must be in force. Plus the real server session's push decision and exact pushed bytes in Lab-M (scheme texts ending in LF / CRLF / spaces).",
+   "1-4 sessions of one real Client per process, server scheme per connection (parsable with distinct sizes / the built-in scheme / unparsable), client schemes incl. stop=1, default used before or not; packet sizes, announced md5, preamble padding and push counts judged against the scheme that must be in force. Plus the real server session's push decision and exact pushed bytes in Lab-M (scheme texts ending in LF / CRLF / spaces), and a push that arrives while a write of the same session is parked in the transport (midwrite).",
    "one child process per history; the reference server's plaintext view; packets delimited by the child's known call pattern")
 
 _c("C20", "exploration", "mutational property-based testing (proptest) of established real sessions and parsers with panic/allocation/quiescence/watchdog monitors and a sibling-stream oracle; coverage-guided fuzzing (libFuzzer via cargo-fuzz) of the same oracles in the thorough tier",
